@@ -128,6 +128,14 @@ def effective(m, skip_brute=False, skip_case=False, folder='Grammar'):
             if k[0] == 'C':
                 vs[k] = [(1.0, ['L' * int(k[1:])])]
     vs['M'] = [(float(p), [str(l)]) for l, p in (m.get('m_levels') or [])]
+    for key, name in (('emails', 'E'), ('websites', 'W')):
+        groups = []
+        for v, p in m.get(key) or []:          # flat [value, prob] lists: equal neighbouring probabilities form a group
+            if groups and groups[-1][0] == float(p):
+                groups[-1][1].append(v)
+            else:
+                groups.append((float(p), [v]))
+        vs[name] = groups
     src = m['base'] if folder == 'Grammar' else (m.get('prince') or [])
     total = 1.0
     if skip_brute:
